@@ -13,7 +13,9 @@ SPEC = {
                    "storage.FSBucket in a temp dir. Start dates: Jan-Mar 2024 month ends and leap day (60%), 25-31 December of "
                    "2023/2024/1999/2099/2100/2020 so that ranges cross New Year (30%), 1 January (10%); 3% of chart ranges and 8% "
                    "of copy ranges span 300-800 days. 20-30% of merge/chart/copy cases and half the seq cases put unlistable "
-                   "stray directories (names that are not valid UTF-8, sorting before and after the dates) into the bucket. Bucket layout: each bucket directory (upload, merged, "
+                   "stray directories (names that are not valid UTF-8, sorting before and after the dates) into the bucket. Request context: 30% of the /chart/ requests of the chart and seq cases run "
+                   "under a request context that is cancelled, or past its deadline, before the request or once k objects have been "
+                   "opened for reading (what middleware.Timeout and a client disconnect do). Bucket layout: each bucket directory (upload, merged, "
                    "chart, the copy source) is in 22% of the environments a symbolic link (absolute or relative target) to a real "
                    "directory elsewhere, the local storage directory itself in 10%; in 30% of the later seq rounds a bucket "
                    "directory is moved away and replaced by a link to it between two requests. What "
@@ -76,6 +78,7 @@ SPEC = {
         "encoding/json: an encoded report holds no raw newline, is not empty, and decodes to the same report (premises of C13_merge_one_line_per_object / C13_read_all; sampled by the merge cases)",
         "semver.Compare is a total preorder (then compareSemver is a strict total order: C13_compare_semver_order); version.Compare is a strict total order on the normalised go versions of the configuration (checked per case on the rank tables)",
         "sort.Slice returns a permutation of its input which is sorted whenever less is a strict total order on the distinct keys; ranging over a Go map visits every key exactly once in some order",
+        "request context: the file-system store ignores it (handle_chart_ctx = handle_chart); the GCS store, whose readers fail once the context is done, is not exercised",
         "descriptors: an open upload reader costs one descriptor; merge_fd models NewReader failing when none is free (EMFILE); the budget of the counting bucket applies to upload readers only",
         "storage: an object write (NewWriter, Write, Close) replaces the object (b_put); FSBucket is exercised against that model incl. rewrites with shorter content; the GCS bucket is not; the listing order of Objects(prefix) is a parameter (observed per merge)",
     ],
